@@ -416,6 +416,14 @@ func Run(c *hx.Ctx) {
 		h1segCases(c)
 		return
 	}
+	if os.Getenv("VERIF_C07_ONLY") == "boltmix" { // development aid: only the mixed bolt v1 / v2 streams
+		boltmixCases(c)
+		return
+	}
+	if os.Getenv("VERIF_C07_ONLY") == "h1cont" { // development aid: only the Expect: 100-continue cases of kind h1seg
+		h1contCases(c)
+		return
+	}
 	ms := matchers()
 	nSmall := c.N(70, 260) // streams <= 600 bytes per protocol: every cut offset + several segmentations
 	nBig := c.N(8, 40)     // larger streams per protocol (frames up to 70000 bytes): random segmentations
@@ -516,4 +524,8 @@ func Run(c *hx.Ctx) {
 	h2ownCases(c)
 	// HTTP/1: pipelined messages through the real stream connections of pkg/stream/http (h1seg.go)
 	h1segCases(c)
+	// HTTP/1 `Expect: 100-continue`: the two-phase read of the server serve loop (h1cont.go; kind h1seg, side exp)
+	h1contCases(c)
+	// xprotocol: bolt v1 frames of every length class on a boltv2 connection and vice versa (boltmix.go; kinds seg / cuts)
+	boltmixCases(c)
 }
